@@ -3,7 +3,7 @@
     Oracle (Section variables): [fmt p x] = the text '%.<p>g' prints, [parse t] = the number numpy reads,
     with  [parse (fmt p x) = round p x]  and  "a formatted number is a non-empty string without white space".
     Everything else (layout, tokenisation, header, labels, mask line, comments, line splitting) is concrete. *)
-From Coq Require Import String Ascii List Bool Arith NArith Lia.
+From Coq Require Import String Ascii List Bool Arith NArith ZArith Lia.
 From Dadi Require Import Model.FileFormat Proofs.FileFormatBase.
 Import ListNotations.
 Local Open Scope list_scope.
@@ -451,5 +451,173 @@ Theorem label_with_quote_refuted :
     from_file tn_parse false (to_file tn_fmt 16 [] true s) <> Some ([], after_file tn_round 16 false s).
 Proof.
   exists quote_witness. repeat split; try reflexivity.
+  vm_compute. discriminate.
+Qed.
+
+(* ------------------------------------------------------------------------------------------- *)
+(** * strided views: the logical content does not depend on the memory layout *)
+
+Lemma flat_map_const_length : forall {A B} (f : A -> list B) c l,
+  (forall x, In x l -> length (f x) = c) -> length (flat_map f l) = length l * c.
+Proof.
+  induction l as [|x l IH]; intros H; simpl; [reflexivity|].
+  rewrite app_length, H by (left; reflexivity). rewrite IH by (intros; apply H; right; assumption). reflexivity.
+Qed.
+
+Lemma indices_length : forall sh, length (indices sh) = nprod sh.
+Proof.
+  induction sh as [|n r IH]; [reflexivity|]. cbn [indices].
+  rewrite (flat_map_const_length _ (nprod r)) by (intros; rewrite map_length; exact IH).
+  rewrite seq_length. reflexivity.
+Qed.
+
+Lemma v_ravel_length : forall {A} (d : A) v, length (v_ravel d v) = nprod (v_shape v).
+Proof. intros. unfold v_ravel. rewrite map_length. apply indices_length. Qed.
+
+(** two views of the same shape whose entries agree index by index have the same logical content *)
+Lemma v_ravel_ext : forall {A} (d : A) v1 v2, v_shape v1 = v_shape v2 ->
+  (forall idx, In idx (indices (v_shape v1)) -> v_get d v1 idx = v_get d v2 idx) -> v_ravel d v1 = v_ravel d v2.
+Proof. intros A d v1 v2 Hs H. unfold v_ravel. rewrite <- Hs. apply map_ext_in. exact H. Qed.
+
+Lemma skipn_add : forall {A} (l : list A) a b, skipn a (skipn b l) = skipn (b + a) l.
+Proof.
+  intros A l a b. revert l. induction b as [|b IH]; intros l; [reflexivity|].
+  destruct l; [rewrite !skipn_nil; reflexivity|]. simpl. apply IH.
+Qed.
+
+(** pieces of a list: consecutive chunks of length c starting at off *)
+Lemma chunks_concat : forall {A} (l : list A) c n off, off + n * c <= length l ->
+  flat_map (fun i => firstn c (skipn (off + i * c) l)) (seq 0 n) = firstn (n * c) (skipn off l).
+Proof.
+  intros A l c n. induction n as [|n IH]; intros off H; [reflexivity|].
+  rewrite seq_S, flat_map_app, IH by lia. cbn [flat_map]. rewrite app_nil_r, Nat.add_0_l.
+  replace (S n * c) with (n * c + c) by lia.
+  rewrite <- (firstn_skipn (n * c) (firstn (n * c + c) (skipn off l))).
+  rewrite firstn_firstn, Nat.min_l by lia. f_equal.
+  rewrite skipn_firstn_comm. replace (n * c + c - n * c) with c by lia.
+  rewrite skipn_add. reflexivity.
+Qed.
+
+Lemma flat_map_ext_in' : forall {A B} (f g : A -> list B) l,
+  (forall x, In x l -> f x = g x) -> flat_map f l = flat_map g l.
+Proof.
+  induction l as [|x l IH]; intros H; [reflexivity|]. simpl.
+  rewrite H by (left; reflexivity). rewrite IH by (intros; apply H; right; assumption). reflexivity.
+Qed.
+
+Lemma firstn1_skipn : forall {A} (d : A) l off, off < length l -> firstn 1 (skipn off l) = [nth off l d].
+Proof.
+  intros A d l. induction l as [|x l IH]; intros off H; [simpl in H; lia|].
+  destruct off; [reflexivity|]. simpl. apply IH. simpl in H. lia.
+Qed.
+
+Lemma c_ravel_aux : forall {A} (d : A) l sh off, off + nprod sh <= length l ->
+  map (fun idx => nth (Z.to_nat (Z.of_nat off + v_pos (c_strides sh) idx)) l d) (indices sh)
+  = firstn (nprod sh) (skipn off l).
+Proof.
+  intros A d l. induction sh as [|n r IH]; intros off H.
+  - cbn. rewrite Z.add_0_r, Nat2Z.id. symmetry. apply firstn1_skipn. cbn in H. lia.
+  - cbn [indices c_strides nprod fold_right]. change (fold_right Nat.mul 1 r) with (nprod r).
+    rewrite flat_map_concat_map, concat_map, map_map, <- flat_map_concat_map.
+    rewrite <- (chunks_concat l (nprod r) n off) by (cbn in H; exact H).
+    apply flat_map_ext_in'. intros i Hi. apply in_seq in Hi.
+    rewrite map_map. cbn [v_pos].
+    rewrite <- (IH (off + i * nprod r)).
+    + apply map_ext. intros idx. f_equal. f_equal. lia.
+    + cbn in H. change (fold_right Nat.mul 1 r) with (nprod r) in H. nia.
+Qed.
+
+(** for a C-contiguous array memory order IS logical order (why a check on fresh arrays cannot tell them apart) *)
+Theorem c_view_ravel : forall {A} (d : A) sh l, length l = nprod sh -> v_ravel d (c_view sh l) = l.
+Proof.
+  intros A d sh l H. unfold v_ravel, c_view, v_get. cbn [v_shape v_off v_strides v_buf].
+  transitivity (firstn (nprod sh) (skipn 0 l)); [|cbn [skipn]; rewrite <- H; apply firstn_all].
+  rewrite <- (c_ravel_aux d l sh 0) by (rewrite H; lia).
+  apply map_ext_in. intros idx _.
+  assert (Hnn : forall s i, (0 <= v_pos (c_strides s) i)%Z).
+  { induction s as [|a s IHs]; intros [|j i]; cbn; try lia. specialize (IHs i). nia. }
+  specialize (Hnn sh idx).
+  destruct (Z.ltb_spec (0 + v_pos (c_strides sh) idx) 0); [lia|]. reflexivity.
+Qed.
+
+Lemma wf_spectrum_of_views : forall {num} (d : num) dv mv folded labels extrap,
+  shape_ok (v_shape dv) = true -> v_shape mv = v_shape dv ->
+  labels_len_ok (v_shape dv) labels = true ->
+  match labels with None => true | Some ls => forallb label_ok ls end = true ->
+  wf_spectrum (spectrum_of_views d dv mv folded labels extrap) = true.
+Proof.
+  intros num d dv mv folded labels extrap Hs Hm Hl Hq.
+  unfold wf_spectrum, spectrum_of_views. cbn [sp_shape sp_data sp_mask sp_labels].
+  rewrite !v_ravel_length, Hm, Nat.eqb_refl, Hs, Hl, Hq. reflexivity.
+Qed.
+
+(** ** a spectrum held in ANY memory layout (transposed by reorder_pops / .T / swapaxes, Fortran order, stepped or
+    reversed slices, broadcast mask) survives the file round trip with its logical content *)
+Theorem roundtrip_views :
+  forall (num : Type) (fmt : nat -> num -> string) (parse : string -> num) (round : nat -> num -> num),
+    (forall p x, parse (fmt p x) = round p x) -> (forall p x, tok_ok (fmt p x) = true) ->
+  forall p comments mc fmi (d : num) dv mv folded labels extrap,
+    shape_ok (v_shape dv) = true -> v_shape mv = v_shape dv ->
+    labels_len_ok (v_shape dv) labels = true ->
+    match labels with None => true | Some ls => forallb label_ok ls end = true ->
+    Forall (fun c => comment_ok c = true) comments ->
+    from_file parse mc (to_file fmt p comments fmi (spectrum_of_views d dv mv folded labels extrap))
+    = Some (map strip comments,
+            (if fmi then after_file else after_old_file) round p mc (spectrum_of_views d dv mv folded labels extrap)).
+Proof.
+  intros num fmt parse round Hpf Htok p comments mc fmi d dv mv folded labels extrap Hs Hm Hl Hq Hc.
+  pose proof (wf_spectrum_of_views d dv mv folded labels extrap Hs Hm Hl Hq) as Hwf.
+  destruct fmi; [apply (roundtrip fmt parse round Hpf Htok) | apply (roundtrip_old_format fmt parse round Hpf Htok)]; assumption.
+Qed.
+
+(** the file depends on the logical content only: two layouts with the same entries give the same text *)
+Theorem file_layout_independent :
+  forall (num : Type) (fmt : nat -> num -> string) p comments fmi (d : num) dv dv' mv mv' folded labels extrap,
+    v_shape dv = v_shape dv' -> v_shape mv = v_shape mv' ->
+    (forall idx, In idx (indices (v_shape dv)) -> v_get d dv idx = v_get d dv' idx) ->
+    (forall idx, In idx (indices (v_shape mv)) -> v_get false mv idx = v_get false mv' idx) ->
+    to_file fmt p comments fmi (spectrum_of_views d dv mv folded labels extrap)
+    = to_file fmt p comments fmi (spectrum_of_views d dv' mv' folded labels extrap).
+Proof.
+  intros num fmt p comments fmi d dv dv' mv mv' folded labels extrap Hs Hm Hd Hk.
+  unfold spectrum_of_views. rewrite (v_ravel_ext d dv dv' Hs Hd), (v_ravel_ext false mv mv' Hm Hk), Hs. reflexivity.
+Qed.
+
+(** ... in particular the file of a spectrum is the file of its C-contiguous copy (numpy.ascontiguousarray) *)
+Theorem file_of_contiguous_copy :
+  forall (num : Type) (fmt : nat -> num -> string) p comments fmi (d : num) dv mv folded labels extrap,
+    to_file fmt p comments fmi (spectrum_of_views d dv mv folded labels extrap)
+    = to_file fmt p comments fmi
+        (spectrum_of_views d (c_view (v_shape dv) (v_ravel d dv)) (c_view (v_shape mv) (v_ravel false mv)) folded labels extrap).
+Proof.
+  intros. unfold spectrum_of_views.
+  rewrite !c_view_ravel by (cbn [c_view v_shape]; apply v_ravel_length). reflexivity.
+Qed.
+
+Theorem pickle_roundtrip_views :
+  forall (num : Type) (d : num) dv mv folded labels extrap,
+    v_shape mv = v_shape dv -> labels_len_ok (v_shape dv) labels = true ->
+    spectrum_unpickler (spectrum_pickler (spectrum_of_views d dv mv folded labels extrap))
+    = Some (spectrum_of_views d dv mv folded labels extrap).
+Proof.
+  intros num d dv mv folded labels extrap Hm Hl. apply pickle_roundtrip; cbn [spectrum_of_views sp_data sp_mask sp_shape sp_labels].
+  - apply v_ravel_length.
+  - rewrite v_ravel_length, Hm. reflexivity.
+  - exact Hl.
+Qed.
+
+(** ** a writer that walks the memory blocks (numpy.nditer, ravel(order='K'), the raw buffer) instead of the logical
+    C order is NOT a round trip: a 3x2 spectrum transposed to 2x3 (what reorder_pops([2,1]) returns) *)
+Definition transposed_data : view tnum := mkView [Fin 1; Fin 2; Fin 3; Fin 4; Fin 5; Fin 6] 0%Z [2; 3] [1%Z; 2%Z].
+Definition transposed_mask : view bool := mkView [false; true; false; false; false; false] 0%Z [2; 3] [1%Z; 2%Z].
+
+Theorem memory_order_writer_refuted :
+  exists (dv : view tnum) (mv : view bool),
+    v_inbounds dv = true /\ v_inbounds mv = true /\ shape_ok (v_shape dv) = true /\ v_shape mv = v_shape dv /\
+    length (v_buf dv) = nprod (v_shape dv) /\ length (v_buf mv) = nprod (v_shape dv) /\
+    from_file tn_parse false (to_file tn_fmt 17 [] true (spectrum_in_memory_order dv mv false None None))
+    <> Some ([], after_file tn_round 17 false (spectrum_of_views NaN dv mv false None None)).
+Proof.
+  exists transposed_data, transposed_mask. repeat split; try reflexivity.
   vm_compute. discriminate.
 Qed.
